@@ -141,6 +141,36 @@ def task_schedule(arg):
     R = [[F(float(r)) for r in row] for row in rates.tolist()]  # noqa: N806
     C = [F(float(c)) for c in icpt.tolist()]  # noqa: N806
 
+    # ---- scaled rates (`rates_multiplier`): all rates times mu, intercepts rebuilt from the first one by accumulating whole pieces; in
+    # particular mu = 0 gives the first intercept everywhere and the scaled part is linear in mu
+    def ref_scaled(x, mu):
+        b = 0
+        for j in range(m):
+            if x >= thr[j]:
+                b = j
+        val = C[0]
+        for j in range(1, b):
+            inc = tl[j + 1] - tl[j]
+            val += sum(mu * R[k][j] * inc ** (k + 1) for k in range(len(R)))
+        if b > 0:
+            inc = F(x) - tl[b]
+            val += sum(mu * R[k][b] * inc ** (k + 1) for k in range(len(R)))
+        return val
+
+    for mu in (0, 0.0, -0.0, np.float64(0.0), 1, 1.0, 0.5, 2, 0.3721, np.float64(0.25)):
+        for x in _points(thr.tolist()):
+            try:
+                got = float(piecewise_polynomial(x, thr, rates, icpt, rates_multiplier=mu))
+            except Exception as e:  # noqa: BLE001
+                out.violation(f"schedule:{g}.{p}:scaled-evaluation-raises:{type(e).__name__}", {**case, "x": x, "rates_multiplier": repr(mu)}, repr(e))
+                break
+            out.step()
+            want = ref_scaled(x, F(float(mu)))
+            if not _close(got, want):
+                out.violation(f"schedule:{g}.{p}:scaled-value", {**case, "x": x, "rates_multiplier": repr(mu)},
+                              f"{ver}: rates scaled by {mu!r}: f({x!r}) = {got!r}, exact {float(want)!r}")
+                break
+
     def val_end(i):  # value of piece i at its upper threshold
         if tl[i] == -INF:
             return C[i]
@@ -239,6 +269,10 @@ def replay(case):
     arr = impl_arrays(g, p, d)
     s = RP.Schedule(RP.resolve(g, p, d), p)
     thr = np.asarray(arr["thresholds"], dtype=float)
+    if "rates_multiplier" in case:
+        part = task_schedule((g, p, case["date"], False))
+        v = [x for x in part["violations"] if "scaled" in x[0]]
+        return not v, "; ".join(x[2] for x in v[:2])
     if "x" in case:
         x = float(case["x"])
         got = float(piecewise_polynomial(x, thr, arr["rates"], arr["intercepts_at_lower_thresholds"]))
